@@ -225,6 +225,26 @@ def run(prog: Program, col: Collector, tier: str, refs: Optional[Refs] = None, c
             col.ok(construct, "no parameter with a constant default is called", f.loc(), nontrivial=False)
     col.cur.analysed["op_implementations"] = n_impl
 
+    # ---------------------------------------------------------------- R15.14 mixed kernels keep the promoted type
+    col.rule("R15.14", "a mixed scalar/array kernel does not cast its result back to the dtype of the array operand", floor=8)
+    from .numerics import _kinds_of, BACKENDS
+    n_mixed = 0
+    for r in cat.registrations:
+        f = r.target
+        if f is None or r.registry not in cat.ops or r.method != "register" or isinstance(f.node, ast.Lambda) or r.module.name not in BACKENDS:
+            continue
+        kinds = _kinds_of(r.pattern)
+        if not kinds or len(kinds) != 2 or kinds[0] == kinds[1]:
+            continue
+        n_mixed += 1
+        params = f.positional[:2]
+        casts = [c for c in ast.walk(f.node) if isinstance(c, ast.Call) and isinstance(c.func, ast.Attribute) and c.func.attr in ("astype", "to", "type")
+                 and c.args and isinstance(c.args[0], ast.Attribute) and c.args[0].attr == "dtype" and isinstance(c.args[0].value, ast.Name) and c.args[0].value.id in params]
+        col.check(not casts, f"{f.fq}::result type", "the result keeps the type the array library promotes to",
+                  f"`{norm(casts[0])[:60]}` casts the result to the dtype of the array operand: with an integer or boolean array and a fractional or infinite Python scalar the scalar's "
+                  f"contribution is truncated ({cat.ops[r.registry].var}(0.5, array([0, 2])) loses the 0.5), so the op no longer agrees with its scalar and all-array forms" if casts else "", f.loc())
+    col.cur.analysed["mixed_kernels"] = n_mixed
+
     # ---------------------------------------------------------------- R15.13 boolean ops are closed on Python bools
     col.rule("R15.13", "an op whose scalar default is a bitwise operator has a boolean implementation for Python bools when that operator leaves the booleans", floor=1)
     # external fact (Python data model): on bool operands operator.and_/or_/xor return bool, operator.invert returns int (~True == -2)
